@@ -15,11 +15,13 @@ package main
 
 import (
 	"bytes"
+	"context"
 	"errors"
 	"fmt"
 	"io"
 	"os"
 	"sort"
+	"syscall"
 
 	"filippo.io/age"
 	"filippo.io/age/armor"
@@ -298,11 +300,16 @@ func dstSide(r *mon.Run) {
 
 	mon.Par(len(jobs), func(i int) {
 		j := jobs[i]
-		name := fmt.Sprintf("dst %s fault=%s stop=%v", j.c, j.f, j.stop)
+		name := fmt.Sprintf("dst %s fault=%s stop=%v err=%s", j.c, j.f, j.stop, dstErrs[i%len(dstErrs)].name)
 		r.Guard(name, func() {
 			pt := mon.DetBytes("c13-"+j.c.String(), j.c.size)
 			fw := mon.NewFaultWriter()
 			fw.Once = j.f.once
+			// the identity of the error rotates: a writer may fail with a value
+			// that looks retryable (EAGAIN after a partial write, EINTR, a timeout)
+			ek := dstErrs[i%len(dstErrs)]
+			fw.Err = ek.err
+			r.Tab("dst_error_identity", ek.name)
 			if j.f.atCall >= 0 {
 				fw.FailAtCall = j.f.atCall
 				fw.Partial = 0
@@ -414,6 +421,38 @@ var errKinds = []errKind{
 	{"closedPipe", io.ErrClosedPipe},
 }
 
+// further error identities: values that helper code is tempted to treat as
+// "try again" or "not really an error". They rotate instead of multiplying.
+var moreErrKinds = []errKind{
+	{"EAGAIN", &os.PathError{Op: "read", Path: "|0", Err: syscall.EAGAIN}},
+	{"EINTR", &os.PathError{Op: "read", Path: "|0", Err: syscall.EINTR}},
+	{"deadline", os.ErrDeadlineExceeded},
+	{"noProgress", io.ErrNoProgress},
+	{"canceled", context.Canceled},
+	{"shortBuffer", io.ErrShortBuffer},
+	{"temporary", temporaryErr{}},
+}
+
+// temporaryErr looks like a network error that asks to be retried.
+type temporaryErr struct{}
+
+func (temporaryErr) Error() string   { return "verif: temporary failure" }
+func (temporaryErr) Temporary() bool { return true }
+func (temporaryErr) Timeout() bool   { return true }
+
+// the same for the destination side
+var dstErrs = []errKind{
+	{"custom", mon.ErrInjected},
+	{"EAGAIN", &os.PathError{Op: "write", Path: "|1", Err: syscall.EAGAIN}},
+	{"EINTR", &os.PathError{Op: "write", Path: "|1", Err: syscall.EINTR}},
+	{"shortWrite", io.ErrShortWrite},
+	{"deadline", os.ErrDeadlineExceeded},
+	{"EPIPE", &os.PathError{Op: "write", Path: "|1", Err: syscall.EPIPE}},
+	{"ENOSPC", &os.PathError{Op: "write", Path: "out", Err: syscall.ENOSPC}},
+	{"temporary", temporaryErr{}},
+	{"custom", mon.ErrInjected},
+}
+
 func srcSide(r *mon.Run) {
 	type sfile struct {
 		name    string
@@ -515,6 +554,11 @@ func srcSide(r *mon.Run) {
 					max = 1 + (o % 7)
 				}
 				jobs = append(jobs, job{f: f, at: o, kind: k, max: max, withData: (o+ki)%2 == 0})
+				if ki == 0 {
+					// one of the further error identities per offset, permanent and once
+					mk := moreErrKinds[o%len(moreErrKinds)]
+					jobs = append(jobs, job{f: f, at: o, kind: mk, max: max, withData: o%2 == 1}, job{f: f, at: o, kind: mk, max: max, withData: o%2 == 0, once: true})
+				}
 				if ki == 0 || r.Thorough() {
 					// the same fault as a transient one; and, for armored files,
 					// through the de-armoring reader alone
